@@ -26,15 +26,20 @@ let nodes : node list ref = ref []
 let run_tree order =
   let ns = List.sort (fun a b -> compare a.id b.id) !nodes in
   let find i = List.find (fun n -> n.id = i) ns in
-  let is_founder n = n.kind <> 'm' && n.kind <> 'p' in
+  let is_founder n = n.kind <> 'm' && n.kind <> 'p' && n.kind <> 'M' in
   let rec team_of n = if is_founder n then n.id else team_of (find n.parent) in
   let teams = Hashtbl.create 16 in
   List.iter (fun n -> if is_founder n then Hashtbl.replace teams n.id (team_init (n.kind = 's'))) ns;
   let apply t e = match tstep (Hashtbl.find teams t) e with Some s -> Hashtbl.replace teams t s; true | None -> false in
-  (* every body spawns its children before any gate opens *)
-  List.iter (fun n -> if n.parent >= 0 then begin
+  (* every body spawns its children before any gate opens, except a late member (kind 'M'): it spawns them when its own gate
+     opens.  late_anc n = the nearest late ancestor of n (-1: none): n exists from the moment that ancestor's gate opens *)
+  let rec late_anc n = if n.parent < 0 then -1 else let p = find n.parent in if p.kind = 'M' then p.id else late_anc p in
+  let spawned = Hashtbl.create 16 in
+  let spawn n = if n.parent >= 0 then begin
       let pt = team_of (find n.parent) in
-      ignore (apply pt (if is_founder n then TSubteamNew else TMemberSpawn)) end) ns;
+      ignore (apply pt (if is_founder n then TSubteamNew else TMemberSpawn)) end;
+    Hashtbl.replace spawned n.id () in
+  List.iter (fun n -> if late_anc n = -1 then spawn n) ns;
   let opened = Hashtbl.create 16 in
   let reported = Hashtbl.create 16 in
   let settle () =
@@ -51,13 +56,15 @@ let run_tree order =
   List.iter (fun x ->
       Printf.printf "P %d" x;
       List.iter (fun n ->
-          let may = if is_founder n then (Hashtbl.find teams n.id).t_lph = LDone else Hashtbl.mem opened n.id in
+          let may = if not (Hashtbl.mem spawned n.id) then true     (* not spawned yet: its location is an untouched word *)
+            else if is_founder n then (Hashtbl.find teams n.id).t_lph = LDone else Hashtbl.mem opened n.id in
           Printf.printf " %d:%d" n.id (if may then 1 else 0)) ns;
       print_newline ();
       if x >= 0 then begin
         (* a negative token only satisfies a precondition: the member was counted from its spawn on, nothing changes *)
         Hashtbl.replace opened x ();
         let n = find x in
+        if n.kind = 'M' then List.iter (fun d -> if late_anc d = n.id then spawn d) ns;   (* ids ascend: parents first *)
         if is_founder n then ignore (apply n.id TLeaderSubmit) else ignore (apply (team_of n) TMemberFinish);
         settle () end) order;
   print_string "J";
